@@ -5,7 +5,7 @@ Import ListNotations.
 Open Scope Z_scope.
 
 (* the facts the translator read from klongpy/types.py and klongpy/interpreter.py at this run *)
-Definition src_flags : flags := mkFlags kglambda_args_positional setitem_wraps_existing.
+Definition src_flags : flags := mkFlags kglambda_args_positional setitem_wraps_existing eval_fn_pops_in_finally.
 
 (* T9.args — a Python callable whose parameters are any duplicate-free list of names among
    x, y, z (any subset, any order), optionally preceded by klong, applied through the
@@ -14,6 +14,7 @@ Definition src_flags : flags := mkFlags kglambda_args_positional setitem_wraps_e
    positional order, its return value is the result, and the scope stack is restored. *)
 Theorem C09_args : forall st c l args,
   NoDup l -> forallb xyz_name l = true -> sig_of c l -> length args = length l ->
+  stable (scx st) args -> praises c args = false ->
   call_lambda src_flags st c args = applied st c args.
 Proof.
   exact (fun st c l args Hnd Hall Hs Hlen =>
@@ -26,7 +27,7 @@ Print Assumptions C09_args.
    completed, and n@[a1 ... ak] all reach the callable with the merged argument list. *)
 Theorem C09_args_by_name : forall st n c l args,
   NoDup l -> forallb xyz_name l = true -> sig_of c l -> length args = length l ->
-  c_lookup (scx st) n = Some (EPy c) ->
+  c_lookup (scx st) n = Some (EPy c) -> quiet (scx st) c args ->
   run_form src_flags st n (FDirect args) = applied st c args /\
   run_form src_flags st n (FAt args) = applied st c args /\
   (forall holes xs, fill holes xs = args -> run_form src_flags st n (FProj holes xs) = applied st c args).
@@ -36,6 +37,7 @@ Print Assumptions C09_args_by_name.
 (* Each: one application per element, in order, to exactly that element; the results in order. *)
 Theorem C09_args_each : forall n c l vs st,
   In l one_sigs -> sig_of c l -> c_lookup (scx st) n = Some (EPy c) ->
+  never_raises c -> Forall (sval (scx st)) vs ->
   run_form src_flags st n (FEach vs) =
     (mkState (scx st) (log st ++ map (fun v => (pid c, [v])) vs), RVal (VList (map (fun v => VPyRes (pid c) [v]) vs))).
 Proof. exact (fun n c l vs st => form_each_exact src_flags n c l vs st (eq_refl : kglambda_args_positional = true)). Qed.
@@ -44,6 +46,7 @@ Print Assumptions C09_args_each.
 (* Over: a left fold; step i applies the callable once to (accumulator, element i). *)
 Theorem C09_args_over : forall n c l v vs st,
   In l two_sigs -> sig_of c l -> c_lookup (scx st) n = Some (EPy c) ->
+  never_raises c -> Forall (sval (scx st)) (v :: vs) ->
   run_form src_flags st n (FOver (v :: vs)) =
     (mkState (scx st) (log st ++ over_log (pid c) v vs), RVal (fold_left (fun a x => VPyRes (pid c) [a; x]) vs v)).
 Proof. exact (fun n c l v vs st => form_over_exact src_flags n c l v vs st (eq_refl : kglambda_args_positional = true)). Qed.
@@ -64,7 +67,7 @@ Print Assumptions C09_merge_positional.
 Theorem C09_args_staged : forall st n c l s0 rest args vs,
   NoDup l -> forallb xyz_name l = true -> sig_of c l -> c_lookup (scx st) n = Some (EPy c) ->
   Forall2 entry_ok s0 args -> chain_ok s0 args rest -> length args = length l ->
-  all_some (merge (s0 :: rest)) = Some vs ->
+  all_some (merge (s0 :: rest)) = Some vs -> quiet (scx st) c args ->
   run_form src_flags st n (FStaged (s0 :: rest)) = applied st c args.
 Proof.
   exact (fun st n c l s0 rest args vs Hnd Hall Hs Hn =>
@@ -76,7 +79,7 @@ Print Assumptions C09_args_staged.
 (* ... and Each over a projection with one open slot applies it once per element to the assembled arguments. *)
 Theorem C09_args_staged_each : forall n c l stages (g : val -> list val) vs st,
   NoDup l -> forallb xyz_name l = true -> sig_of c l -> c_lookup (scx st) n = Some (EPy c) ->
-  (forall v, all_some (merge (stages ++ [[Some v]])) = Some (g v) /\ length (g v) = length l) ->
+  (forall v, all_some (merge (stages ++ [[Some v]])) = Some (g v) /\ length (g v) = length l /\ quiet (scx st) c (g v)) ->
   staged_each_loop src_flags st n stages vs =
     (mkState (scx st) (log st ++ map (fun v => (pid c, g v)) vs), Some (map (fun v => VPyRes (pid c) (g v)) vs)).
 Proof.
@@ -89,8 +92,8 @@ Print Assumptions C09_args_staged_each.
    signature (x, z) applied to (1, 2) raises at top level and receives (1, 9) inside a function
    whose z is 9. *)
 Theorem C09_args_refuted_by_name_lookup :
-  let old := mkFlags false true in
-  let c := mkPyc 7 [PX; PZ] in
+  let old := mkFlags false true true in
+  let c := mkPyc 7 [PX; PZ] (fun _ => false) in
   call_lambda old (mkState [[]] []) c [VInt 1; VInt 2] = (mkState [[]] [], RErr) /\
   call_lambda old (mkState [[(0, EData (VInt 7)); (1, EData (VInt 8)); (2, EData (VInt 9))]; []] []) c [VInt 1; VInt 2]
     = applied (mkState [[(0, EData (VInt 7)); (1, EData (VInt 8)); (2, EData (VInt 9))]; []] []) c [VInt 1; VInt 9].
@@ -99,6 +102,7 @@ Proof. vm_compute. split; reflexivity. Qed.
 (* ... while signatures whose name SET is x / x,y / x,y,z were and are exact, whatever the flag. *)
 Theorem C09_args_prefix_any_flag : forall fl st c l args,
   In l prefix_sigs -> sig_of c l -> length args = length l ->
+  stable (scx st) args -> praises c args = false ->
   call_lambda fl st c args = applied st c args.
 Proof. exact call_exact_prefix. Qed.
 Print Assumptions C09_args_prefix_any_flag.
@@ -118,6 +122,7 @@ Theorem C09_store_readback : forall h n lg,
   (last_set h n None = None -> read_name st n = BKeyError) /\
   (forall c l args, last_set h n None = Some (PCall c) ->
      NoDup l -> forallb xyz_name l = true -> sig_of c l -> length args = length l ->
+     quiet (hrun src_flags [[]] h) c args ->
      read_name st n = BWrapper n (EPy c) /\
      apply_name src_flags st n args = applied st c args /\
      call_readback src_flags st (read_name st n) args = applied st c args).
@@ -126,8 +131,8 @@ Print Assumptions C09_store_readback.
 
 (* Before the fix an overwrite stored the callable raw; the Klong call then returned the function object. *)
 Theorem C09_store_refuted_raw_overwrite :
-  let old := mkFlags true false in
-  let c1 := mkPyc 1 [PX] in let c2 := mkPyc 2 [PX] in
+  let old := mkFlags true false true in
+  let c1 := mkPyc 1 [PX] (fun _ => false) in let c2 := mkPyc 2 [PX] (fun _ => false) in
   let st := mkState (hrun old [[]] [HSet 5 (PCall c1); HSet 5 (PCall c2)]) [] in
   c_lookup (scx st) 5 = Some (ERaw c2) /\ apply_name old st 5 [VInt 9] = (st, RVal (VPyObj 2)).
 Proof. vm_compute. split; reflexivity. Qed.
@@ -139,7 +144,7 @@ Proof. vm_compute. split; reflexivity. Qed.
 Theorem C09_wrapper : forall st sym cap args,
   (forall cur, c_lookup (scx st) sym = Some (EKfn cur) ->
      wrapper_call src_flags st sym cap args =
-       (if (length args =? karity cur)%nat then (st, RVal (VKRes (kid cur) args)) else (st, RErr)) /\
+       (if (length args =? karity cur)%nat then (st, RVal (VKRes (kid cur) (map (reval (scx st)) args))) else (st, RErr)) /\
      (length args = karity cur -> apply_name src_flags st sym args = wrapper_call src_flags st sym cap args)) /\
   ((forall cur, c_lookup (scx st) sym <> Some (EKfn cur)) ->
      wrapper_call src_flags st sym cap args = call_entry src_flags st cap args).
@@ -154,8 +159,8 @@ Print Assumptions C09_wrapper.
 Theorem C09_wrapper_follows_history : forall h n cap cur args lg,
   last_set h n None = Some (PKfn cur) -> length args = karity cur ->
   let st := mkState (hrun src_flags [[]] h) lg in
-  wrapper_call src_flags st n cap args = (st, RVal (VKRes (kid cur) args)) /\
-  apply_name src_flags st n args = (st, RVal (VKRes (kid cur) args)).
+  wrapper_call src_flags st n cap args = (st, RVal (VKRes (kid cur) (map (reval (scx st)) args))) /\
+  apply_name src_flags st n args = (st, RVal (VKRes (kid cur) (map (reval (scx st)) args))).
 Proof. exact (wrapper_history src_flags (eq_refl : setitem_wraps_existing = true)). Qed.
 Print Assumptions C09_wrapper_follows_history.
 
@@ -174,7 +179,7 @@ Theorem C09_import :
      handle_import sig = ILambda (length (filter is_required sig) - 1) true) /\
   (forall sig, (existsb ip_named_args sig = true \/ (filter is_required sig = [] /\ existsb is_optional sig = true)) ->
      handle_import sig = IWildcard) /\
-  (forall fl st p n k args, (n <= 3)%nat -> length args = n ->
+  (forall fl st p n k args, (n <= 3)%nat -> length args = n -> stable (scx st) args ->
      call_lambda fl st (imported_pyc p n k) args = applied st (imported_pyc p n k) args).
 Proof. exact (conj import_lambda (conj import_lambda_klong (conj import_wildcard import_call_exact))). Qed.
 Print Assumptions C09_import.
@@ -187,7 +192,7 @@ Theorem C09_import_exact : forall it ps,
   ireal it = ps -> Forall plainp ps -> (length ps <= 3)%nat ->
   register import_follows_wrapped it = Some (ELam it (length ps) false false) /\
   forall fl st n args, c_lookup (scx st) n = Some (ELam it (length ps) false false) -> length args = length ps ->
-    apply_name fl st n args = item_applied st it args.
+    stable (scx st) args -> apply_name fl st n args = item_applied st it args.
 Proof.
   exact (fun it ps => import_exact_plain import_follows_wrapped it ps (or_introl (eq_refl : import_follows_wrapped = true))).
 Qed.
@@ -197,7 +202,7 @@ Theorem C09_import_exact_klong : forall it kp ps,
   ireal it = kp :: ps -> klongp kp -> Forall plainp ps -> (length ps <= 3)%nat ->
   register import_follows_wrapped it = Some (ELam it (length ps) true false) /\
   forall fl st n args, c_lookup (scx st) n = Some (ELam it (length ps) true false) -> length args = length ps ->
-    apply_name fl st n args = item_applied st it args.
+    stable (scx st) args -> apply_name fl st n args = item_applied st it args.
 Proof.
   exact (fun it kp ps => import_exact_klong import_follows_wrapped it kp ps (or_introl (eq_refl : import_follows_wrapped = true))).
 Qed.
@@ -220,16 +225,89 @@ Theorem C09_import_refuted_without_follow_wrapped :
   let caller := [(0, EData (VInt 1)); (1, EData (VInt 2))] in
   register false it = Some (ELam it 0 false true) /\
   (let st := mkState [caller; [(5, ELam it 0 false true)]] [] in
-   apply_name (mkFlags true true) st 5 [VInt 1] = (st, RErr)) /\
+   apply_name (mkFlags true true true) st 5 [VInt 1] = (st, RErr)) /\
   (let st := mkState [caller; [(5, ELam it2 0 false true)]] [] in
-   apply_name (mkFlags true true) st 5 [VInt 1] = item_applied st it2 [VInt 1; VInt 2]).
+   apply_name (mkFlags true true true) st 5 [VInt 1] = item_applied st it2 [VInt 1; VInt 2]).
 Proof. vm_compute. repeat split; reflexivity. Qed.
+
+(* Raising callables. A callable that raises for the arguments it receives is still called exactly once
+   (one log entry), the error propagates as the result of the application, and the scope stack is
+   restored — closed by the translator's reading that _eval_fn pops the frame in a `finally`. *)
+Theorem C09_raise : forall st c l args,
+  NoDup l -> forallb xyz_name l = true -> sig_of c l -> length args = length l ->
+  stable (scx st) args -> praises c args = true ->
+  call_lambda src_flags st c args = (mkState (scx st) (log st ++ [(pid c, args)]), RErr).
+Proof.
+  exact (fun st c l args Hnd Hall =>
+    call_raises src_flags st c l args (eq_refl : kglambda_args_positional = true) (eq_refl : eval_fn_pops_in_finally = true)
+      (all_sigs_complete l Hnd Hall)).
+Qed.
+Print Assumptions C09_raise.
+
+(* Each stops at the first element the callable raises for: that call is logged, no later element is touched. *)
+Theorem C09_raise_each : forall n c l pre b post st,
+  In l one_sigs -> sig_of c l -> c_lookup (scx st) n = Some (EPy c) ->
+  (forall v, In v pre -> praises c [v] = false) -> praises c [b] = true ->
+  Forall (sval (scx st)) (pre ++ [b]) ->
+  each_loop src_flags st n (pre ++ b :: post) =
+    (mkState (scx st) (log st ++ map (fun v => (pid c, [v])) (pre ++ [b])), None).
+Proof.
+  exact (fun n c l pre b post st =>
+    each_raises src_flags n c l pre b post st (eq_refl : kglambda_args_positional = true) (eq_refl : eval_fn_pops_in_finally = true)).
+Qed.
+Print Assumptions C09_raise_each.
+
+(* Without the `finally` the frame of the failed call stays on the scope stack. *)
+Theorem C09_raise_refuted_without_finally :
+  let nf := mkFlags true true false in
+  let c := mkPyc 7 [PX] (fun _ => true) in
+  call_lambda nf (mkState [[]] []) c [VInt 1] = (mkState [[(0, EData (VInt 1))]; []] [(7, [VInt 1])], RErr).
+Proof. vm_compute. reflexivity. Qed.
+
+(* Wrong argument counts (outside the property's quantifier, which pairs a callable with a fitting
+   argument tuple) never INVENT arguments for a callable stored with klong[name]=f: with fewer
+   arguments than declared (none included) it is not called at all and the call object comes back;
+   with more, the surplus is dropped and it is called once with the leading ones. *)
+Theorem C09_wrong_count : forall st n c l args,
+  NoDup l -> forallb xyz_name l = true -> sig_of c l -> c_lookup (scx st) n = Some (EPy c) ->
+  ((length args < length l)%nat -> apply_name src_flags st n args = (st, RUnapplied)) /\
+  ((length l <= length args <= 3)%nat -> stable (scx st) args ->
+     call_lambda src_flags st c args = called st c (firstn (length l) args)).
+Proof.
+  exact (fun st n c l args Hnd Hall Hs Hn =>
+    conj (fun Hlt => apply_under src_flags st n c args Hn
+                       (eq_ind_r (fun a => (length args < a)%nat) Hlt
+                          (lam_arity_sig src_flags c l (eq_refl : kglambda_args_positional = true) (all_sigs_complete l Hnd Hall) Hs)))
+         (fun Hle Hst => call_surplus src_flags st c l args (eq_refl : kglambda_args_positional = true) (all_sigs_complete l Hnd Hall) Hs Hle Hst
+                           (or_introl (eq_refl : eval_fn_pops_in_finally = true)))).
+Qed.
+Print Assumptions C09_wrong_count.
+
+(* klong[n] = v from ANY scope stack — also from inside a running Klong or Python function: the
+   name reads back as the wrapped value at once, every other name is untouched.  (A NEW name set
+   while a function runs lives in that function's frame and is gone when it returns: `n::v` inside
+   a Klong function behaves the same; recorded in notes/C09.md.) *)
+Theorem C09_store_any_scope : forall c n v k,
+  c_lookup (c_set src_flags c n v) k = if k =? n then Some (wrap v) else c_lookup c k.
+Proof. exact (fun c n v => c_set_lookup src_flags c n v (eq_refl : setitem_wraps_existing = true)). Qed.
+Print Assumptions C09_store_any_scope.
+
+(* KNOWN FINDING C09-symbol-argument-reevaluated: _eval_fn evaluates every argument a second time when
+   it builds the call frame, so an argument VALUE that is a symbol naming a bound variable reaches the
+   callable as that variable's value: with a::5, f'[:a :b] calls f(5), f(:b).  All theorems above
+   therefore assume `stable` arguments (everything except such symbols). *)
+Theorem C09_symbol_argument_refuted :
+  let c := mkPyc 1 [PX] (fun _ => false) in
+  let st := mkState [[(5, EPy c); (40, EData (VInt 5))]] [] in
+  run_form src_flags st 5 (FEach [VSym 40; VSym 41]) =
+    (mkState (scx st) [(1, [VInt 5]); (1, [VSym 41])], RVal (VList [VPyRes 1 [VInt 5]; VPyRes 1 [VSym 41]])).
+Proof. vm_compute. reflexivity. Qed.
 
 (* Non-vacuity: a callable (klong, z, x) called as f(1;2) inside a function whose frame holds
    x=7, y=8, z=9 receives (1, 2); each and over through names. *)
 Example C09_example :
-  let c := mkPyc 3 [PKlong; PZ; PX] in
-  let st := mkState [[(0, EData (VInt 7)); (1, EData (VInt 8)); (2, EData (VInt 9))]; [(5, EPy c); (6, EPy (mkPyc 4 [PY]))]] [] in
+  let c := mkPyc 3 [PKlong; PZ; PX] (fun _ => false) in
+  let st := mkState [[(0, EData (VInt 7)); (1, EData (VInt 8)); (2, EData (VInt 9))]; [(5, EPy c); (6, EPy (mkPyc 4 [PY] (fun _ => false)))]] [] in
   run_form src_flags st 5 (FDirect [VInt 1; VInt 2]) = applied st c [VInt 1; VInt 2] /\
   snd (run_form src_flags st 6 (FEach [VInt 1; VInt 2])) = RVal (VList [VPyRes 4 [VInt 1]; VPyRes 4 [VInt 2]]) /\
   snd (run_form src_flags st 5 (FOver [VInt 1; VInt 2; VInt 3])) = RVal (VPyRes 3 [VPyRes 3 [VInt 1; VInt 2]; VInt 3]).
